@@ -328,6 +328,12 @@ pub fn gen_custom_claims(rng: &mut Rng) -> Map<String, Value> {
       m.insert(format!("customClaim{}", i), rand_value(rng, 0));
     }
   }
+  // names other JOSE/OIDC profiles give a meaning to; here they are ordinary custom claims and must come back untouched
+  if rng.chance(1, 3) {
+    let name = *rng.pick(&["nonce", "cnf", "scope", "azp", "client_id", "auth_time", "acr", "amr", "at_hash", "sub_jwk", "vct", "typ", "kid", "challenge", "domain"]);
+    let v = if rng.bool() { json!(format!("v-{}", rng.below(1000))) } else { rand_value(rng, 0) };
+    m.insert(name.to_string(), v);
+  }
   m
 }
 
